@@ -3,6 +3,7 @@
     documented format (TL1 part; the TL2 layout lemmas live with the TL2 model, Props/C03.v and
     C13.v); C33's theorems give the string, varlen-size and bit-vector layouts. *)
 From TLV Require Import Prim.PrimModel Prim.PrimProofs Tl1.Tl1Model Tl1.Tl1Proofs Tl1.Tl1Canon Tl1.Tl1Spec.
+From TLV Require Import Tl1.Tl1CanonDict.
 Open Scope N_scope.
 
 Theorem C11_little_endian_nat : forall v,
@@ -74,6 +75,46 @@ Theorem C11_reference_reads_what_it_writes : forall san s, wf_schema s = true ->
 Proof. intros san s Hwf v fuel t bare ps b rest Hd H. exact (enc1_dec1 san s Hwf v fuel Hd t bare ps b rest H). Qed.
 Print Assumptions C11_reference_reads_what_it_writes.
 
+(** the set of byte strings the reference accepts, for EVERY well-formed schema (key/value
+    dictionaries anywhere, nested at any depth): an accepted prefix [pfx] is what the reference
+    writes for the decoded value, [pfx'], up to [dict_equiv] (Tl1CanonDict.v) -- same tags,
+    primitives and counts, and inside each dictionary [pfx] lists the received entries in any order
+    where [pfx'] lists them sorted by key, an entry dropped iff a later one has the same key.
+    Nothing is excluded any more; the statement restricted to schemas without dictionaries
+    ([..._partial] below, kept under its historical name) is the corollary obtained with
+    [C11_dict_equiv_is_equality_without_dictionaries]. *)
+Theorem C11_reference_accepts_only_what_it_writes_modulo_dict : forall san s, wf_schema s = true ->
+  forall fuel t bare ps b v rest, bytes_ok b ->
+    dec1 fuel san s t bare ps b = Some (Ok (v, rest)) ->
+    exists pfx pfx', b = pfx ++ rest /\ enc1 false s t bare ps v = Some pfx' /\ dict_equiv s t bare ps pfx pfx'.
+Proof. exact dec1_canonical_modulo_dict. Qed.
+Print Assumptions C11_reference_accepts_only_what_it_writes_modulo_dict.
+
+Theorem C11_dict_equiv_is_equality_without_dictionaries : forall s t bare ps x y,
+  no_dict s = true -> dict_equiv s t bare ps x y -> x = y.
+Proof. exact dict_equiv_no_dict. Qed.
+Print Assumptions C11_dict_equiv_is_equality_without_dictionaries.
+
+(** whatever the reference accepts it can write back *)
+Theorem C11_reference_rewrites_what_it_accepts : forall san s, wf_schema s = true ->
+  forall fuel t bare ps b v rest, bytes_ok b ->
+    dec1 fuel san s t bare ps b = Some (Ok (v, rest)) ->
+    exists pfx pfx', b = pfx ++ rest /\ enc1 false s t bare ps v = Some pfx'.
+Proof. exact dec1_reencodable. Qed.
+Print Assumptions C11_reference_rewrites_what_it_accepts.
+
+(** and what it writes back is a fixed point of read-then-write (same fuel, any continuation; with
+    the length-sanity option on, provided the strict writer accepts the value) *)
+Theorem C11_reference_rewrite_is_fixed_point : forall san s, wf_schema s = true ->
+  forall fuel t bare ps b v rest, bytes_ok b ->
+    dec1 fuel san s t bare ps b = Some (Ok (v, rest)) ->
+    exists pfx pfx', b = pfx ++ rest /\ enc1 false s t bare ps v = Some pfx' /\
+      forall san' fuel' rest', (fuel <= fuel')%nat ->
+        (san' = true -> enc1 true s t bare ps v <> None) ->
+        dec1 fuel' san' s t bare ps (pfx' ++ rest') = Some (Ok (v, rest')).
+Proof. exact dec1_canonical_form_fixed. Qed.
+Print Assumptions C11_reference_rewrite_is_fixed_point.
+
 Theorem C11_reference_accepts_only_what_it_writes_partial : forall san s, wf_schema s = true -> no_dict s = true ->
   forall fuel t bare ps b v rest, bytes_ok b ->
     dec1 fuel san s t bare ps b = Some (Ok (v, rest)) ->
@@ -86,3 +127,31 @@ Example C11_ex_boxed_vector :
        2 false [] (VStruct [Some (VArr [VNum 1; VNum 258])])
   = Some [68; 51; 34; 17;  2; 0; 0; 0;  1; 0; 0; 0;  2; 1; 0; 0].
 Proof. vm_compute. reflexivity. Qed.
+
+(** key/value dictionary: count, then entries; the reference reads them in any order with duplicate
+    keys (here the keys "b", "a", "b") and writes them sorted, the last "b" winning; the two byte
+    strings are [dict_equiv] and the written one is read back unchanged *)
+Definition c11d_schema : schema :=
+  [ TPrim PString; TPrim PNat; TStruct 7 [mkField 0 true None []; mkField 1 true None []];
+    TDict PString (mkField 2 true None []) ].
+Definition c11d_in : bytes := [3;0;0;0;  1;98;0;0; 1;0;0;0;  1;97;0;0; 2;0;0;0;  1;98;0;0; 3;0;0;0].
+Definition c11d_val : value :=
+  VArr [VStruct [Some (VStr [97]); Some (VNum 2)]; VStruct [Some (VStr [98]); Some (VNum 3)]].
+Definition c11d_out : bytes := [2;0;0;0;  1;97;0;0; 2;0;0;0;  1;98;0;0; 3;0;0;0].
+
+Example C11_ex_dictionary : wf_schema c11d_schema = true /\ no_dict c11d_schema = false /\
+  dec1 9 true c11d_schema 3 true [] (c11d_in ++ [5; 5]) = Some (Ok (c11d_val, [5; 5])) /\
+  enc1 true c11d_schema 3 true [] c11d_val = Some c11d_out /\
+  dec1 9 true c11d_schema 3 true [] (c11d_out ++ [5; 5]) = Some (Ok (c11d_val, [5; 5])).
+Proof. vm_compute. repeat split; reflexivity. Qed.
+
+Example C11_ex_dictionary_equiv : dict_equiv c11d_schema 3 true [] c11d_in c11d_out.
+Proof.
+  destruct (C11_reference_accepts_only_what_it_writes_modulo_dict true c11d_schema eq_refl 9 3%nat true []
+              (c11d_in ++ [5; 5]) c11d_val [5; 5]) as [pfx [pfx' [E [He Hq]]]].
+  - apply Forall_forall. intros x Hx. unfold byte_ok.
+    assert (Hb : bytes_okb (c11d_in ++ [5; 5]) = true) by (vm_compute; reflexivity).
+    unfold bytes_okb in Hb. rewrite forallb_forall in Hb. specialize (Hb x Hx). now apply N.ltb_lt.
+  - vm_compute. reflexivity.
+  - apply app_inv_tail in E. subst pfx. vm_compute in He. injection He as <-. exact Hq.
+Qed.
